@@ -621,6 +621,9 @@ class Interp(Engine):
             a = self.lift(a, st)
         if isinstance(b2, Ref):
             b2 = self.lift(b2, st)
+        if (isinstance(a, tuple) and a and a[0] == 'opaque') or (isinstance(b2, tuple) and b2 and b2[0] == 'opaque'):
+            yield st, ('opaque',)       # arithmetic on values the verification does not look at (Decimal balances)
+            return
         if isinstance(op, ast.Mod) and (isinstance(a, (str, bytes)) and not isinstance(a, V)
                                         or isinstance(a, V) and a.ty.kind == 'str'):
             yield st, V(self.fresh_term('fmt', z3.StringSort()), STR)      # % formatting: opaque text (A-LOG)
@@ -710,27 +713,24 @@ class Interp(Engine):
                 yield st, Raised(ExcVal(ZeroDivisionError))
                 return
             branches = [(st, False)]
+        elif st.spec:
+            branches = [(st, False)]        # in a specification the divisor is not zero (unspecified otherwise)
         else:
             branches = list(self.branch(st, y == 0, "L%s:div0" % getattr(e, 'lineno', '?')))
         for s, is_zero in branches:
             if is_zero:
                 yield s, Raised(ExcVal(ZeroDivisionError))
                 continue
-            # SMT-LIB div/mod are euclidean (remainder >= 0); python floors toward -inf (remainder has sign of divisor)
+            # SMT-LIB div/mod are euclidean (0 <= remainder < |divisor|); python floors toward -inf (the remainder has the
+            # sign of the divisor).  For a positive divisor they coincide; for a negative one with non-zero euclidean
+            # remainder e:  python remainder = e + y,  python quotient = euclidean quotient - 1.
+            qe, re_ = x / y, x % y
             if z3.is_int_value(y) and y.as_long() > 0:
-                q, r = x / y, x % y
+                q, r = qe, re_
             else:
-                qe, re_ = x / y, x % y
                 adj = z3.And(y < 0, re_ != 0)
-                q = z3.If(adj, qe - 1, qe)      # euclid: x = y*qe + re, re>=0; floor for y<0 with re>0: q = qe-1? check
+                q = z3.If(adj, qe - 1, qe)
                 r = z3.If(adj, re_ + y, re_)
-                # derivation: y<0, re>0: x = y*qe + re = y*(qe+1) + (re - y) ... python wants remainder in (y, 0]:
-                # x = y*(qe - ... )  -- use the defining property instead to stay exact:
-                qf = self.fresh_term('q', z3.IntSort(), s)
-                rf = self.fresh_term('r', z3.IntSort(), s)
-                s.assume(x == y * qf + rf)
-                s.assume(z3.If(y > 0, z3.And(0 <= rf, rf < y), z3.And(y < rf, rf <= 0)))
-                q, r = qf, rf
             yield s, V(q if isinstance(op, ast.FloorDiv) else r, INT)
 
     def int_range(self, t, st, lo, hi):
